@@ -116,10 +116,24 @@ def main(tier, seed):
                  yaml_variants=0, variant_pairs_compared=0)
     ref_cases, ref_charts = [], {}
     samples = []
-    for k in range(n_charts):
-        chart = genchart.valid_chart(rng, profile)
+    # the corpus first (hand-shaped charts with their scripted inputs, then a random continuation), then generated charts
+    import corpus_interp
+    items = []
+    for entry in corpus_interp.entries():
+        try:
+            ch, scr = corpus_interp.build(entry)
+        except Exception as e:  # noqa
+            stats.setdefault('corpus_errors', []).append('%s: %r' % (entry[0], e))
+            continue
+        items.append((ch, list(scr) + make_script(rng, 10, sorted({t.event for t in ch._transitions if t.event}))))
+    stats['corpus_charts'] = len(items)
+    for k in range(n_charts + len(items)):
+        if k < len(items):
+            chart, script = items[k]
+        else:
+            chart = genchart.valid_chart(rng, profile)
+            script = make_script(rng, rng.randint(8, 22), sorted({t.event for t in chart._transitions if t.event}))
         cv = sx.chart_value(chart)
-        script = make_script(rng, rng.randint(8, 22), sorted({t.event for t in chart._transitions if t.event}))
         # reference = the chart as generated
         ref_scn = mk_scn(chart)
         cases = []
